@@ -13,13 +13,13 @@
 (* Programs: statement skeletons (exit statements under nested compound statements).             *)
 (* Callables are NOT listed here: they are enumerated from the live interpreter (everything      *)
 (* callable in builtins and in the attribute tables of the types of Values), minus Excluded.     *)
-EXTENDS Integers, Sequences, FiniteSets
+EXTENDS Integers, Sequences, FiniteSets, SequencesExt, TLC
 
 Prelude ==
   "import math\ndef fn(a, b=2):\n    return a\ndef gf():\n    yield 1\n    yield 2\nclass K:\n    pass\nclass CM:\n    def __enter__(self):\n        return self\n    def __exit__(self, t, v, tb):\n        return False\ncm = CM()\ndef selflist():\n    l = [1]\n    l.append(l)\n    return l\ndef selfdict():\n    d = {}\n    d['d'] = d\n    return d\ndef deeplist():\n    l = []\n    for i in range(50):\n        l = [l]\n    return l\n"
 
 V(id, src, fresh, huge, tier) == [id |-> id, src |-> src, fresh |-> fresh, huge |-> huge, tier |-> tier]
-Values == <<
+CoreValues == <<
   V("None", "None", FALSE, FALSE, "std"),
   V("True", "True", FALSE, FALSE, "std"),
   V("False", "False", FALSE, FALSE, "std"),
@@ -87,7 +87,35 @@ Values == <<
   V("list:selfref", "selflist()", TRUE, FALSE, "fatal"),
   V("dict:selfref", "selfdict()", TRUE, FALSE, "fatal")
 >>
-NV == Len(Values)
+
+\* Parameterised texts: conversions and formatting switch algorithm with the length of the text (machine-word
+\* fast path up to 18 digits, big-number path beyond), so numeric texts come in the lengths around that
+\* boundary, in digit alphabets valid for few and for many bases, with prefix, sign and blanks.
+TextLens == {1, 18, 19, 20, 40}
+Rep(ch, n) == "'" \o ch \o "' * " \o ToString(n)
+TextValues ==
+  [i \in 1..5 |-> LET n == SetToSortSeq(TextLens, <)[i] IN V("str:ones" \o ToString(n), Rep("1", n), FALSE, FALSE, "std")] \o
+  [i \in 1..5 |-> LET n == SetToSortSeq(TextLens, <)[i] IN V("str:zs" \o ToString(n), Rep("z", n), FALSE, FALSE, "std")] \o
+  << V("str:hex20", "'0x' + 'f' * 20", FALSE, FALSE, "std"),
+     V("str:signed-blanks20", "' -' + '7' * 20 + ' '", FALSE, FALSE, "std"),
+     V("bytes:ones20", "b'1' * 20", FALSE, FALSE, "std") >>
+
+\* Boundary sweep: every small integer as an argument (bases, widths, counts, precisions, indices).
+\* Sweep values are not part of the full product; they occur in SweepTuples only.
+SweepInts == -2..40
+SweepValues == [i \in 1..Cardinality(SweepInts) |-> V("sweep:" \o ToString(i - 3), ToString(i - 3), FALSE, FALSE, "std")]
+
+Values == CoreValues \o TextValues \o SweepValues
+NV == Len(CoreValues) + Len(TextValues)      \* the values of the full product and of the sampled triples
+IdxOf(id) == CHOOSE i \in 1..Len(Values) : Values[i].id = id
+SweepIdx == { NV + i : i \in 1..Len(SweepValues) }
+\* the other positions of a sweep tuple hold one "long / rich" representative
+RichIdx == { IdxOf("str:ones20"), IdxOf("str:ab"), IdxOf("list:ints"), IdxOf("int:3") }
+SweepTuples ==
+  { <<k>> : k \in SweepIdx } \cup
+  { <<r, k>> : r \in RichIdx, k \in SweepIdx } \cup { <<k, r>> : r \in RichIdx, k \in SweepIdx } \cup
+  { <<k, r, r>> : r \in RichIdx, k \in SweepIdx } \cup { <<r, k, r>> : r \in RichIdx, k \in SweepIdx } \cup
+  { <<r, r, k>> : r \in RichIdx, k \in SweepIdx }
 
 \* callables that do I/O or affect the process are not applied (by name in builtins; by attribute name elsewhere)
 Excluded == {"open", "input", "exit", "quit", "print", "exec", "eval", "compile", "__import__", "help", "breakpoint"}
